@@ -260,10 +260,10 @@ func ghost_closedDone(c chan struct{}) bool        { panic("ghost") }
 //@ pred chanassume_remove(md *msgDone, all *list.List) bool = md.msg.el != nil && vcIn(ghost_lmem(all), md.msg.el) && md.msg.el.Value == any(md.msg)
 
 // Every element of the enforcer's list holds a message.
-//@ pred spec_enfList(all *list.List) bool = all != nil && ghost_llen(all) >= 0 &&
-//@     forall x *list.Element :: { vcIn(ghost_lmem(all), x) } vcIn(ghost_lmem(all), x) ==> x != nil && spec_isMsg(x.Value)
-//@ func spec_isMsg
-//@   inline
+// @ pred spec_enfList(all *list.List) bool = all != nil && ghost_llen(all) >= 0 &&
+// @     forall x *list.Element :: { vcIn(ghost_lmem(all), x) } vcIn(ghost_lmem(all), x) ==> x != nil && spec_isMsg(x.Value)
+// @ func spec_isMsg
+// @   inline
 func spec_isMsg(v any) bool { m, ok := v.(*Message); return ok && m != nil }
 
 // ASSUMED in the eviction loop (sequential rendez-vous model, D2): the store and the enforcer agree on
